@@ -1,25 +1,9 @@
-use crate::eng::*;
-use llguidance::StopController;
+use llguidance::api::{GrammarInit, ParserLimits, TopLevelGrammar};
 pub fn run() {
-    let (ws, eos) = single_byte_vocab();
-    let env = make_env(&ws, eos, false);
-    for (stops, text) in [
-        (vec!["b", "ab"], "xxabyy"),
-        (vec!["ab", "b"], "xxabyy"),
-        (vec!["abc", "b"], "xxabcyy"),
-        (vec!["bcd", "abc"], "xabcdy"),
-        (vec!["aa"], "xaaay"),
-    ] {
-        let mut sc = StopController::new(env.clone(), vec![], None, stops.iter().map(|s| s.to_string()).collect()).unwrap();
-        let mut out = String::new();
-        for b in text.bytes() {
-            out.push_str(&sc.commit_token(b as u32));
-        }
-        println!("{:?} {:?} -> {:?} stopped={}", stops, text, out, sc.is_stopped());
-    }
-    // regex stop
-    let mut sc = StopController::new(env.clone(), vec![], Some("a+b".to_string()), vec![]).unwrap();
-    let mut out = String::new();
-    for b in "xxaaabyy".bytes() { out.push_str(&sc.commit_token(b as u32)); }
-    println!("regex a+b xxaaabyy -> {:?}", out);
+    let lark = "start: a b\na: T0 | c\nb: c c\nc: d\nd: T1 T0 | \"\"\nT0: /x/\nT1: /y+/\n";
+    let gi = GrammarInit::Serialized(TopLevelGrammar::from_lark(lark.to_string()));
+    let (g, lex) = gi.to_internal(None, ParserLimits::default()).unwrap();
+    println!("{}", g.to_string(Some(&lex)));
+    let o = g.optimize();
+    println!("{}", o.to_string(Some(&lex)));
 }
